@@ -191,20 +191,34 @@ def run_spec(spec, O=None, R=None):
 
 
 def vandalise(res, rng):
-    """what an earlier caller may do to the object it was given back"""
+    """what an earlier caller may do to the object it was given back: every kind of in-place edit, every time"""
     try:
         if hasattr(res, "pub_key_cred_params"):
-            c = rng.randrange(4)
-            if c == 0:
-                res.pub_key_cred_params.clear()
-            elif c == 1 and res.pub_key_cred_params:
+            for p in list(res.pub_key_cred_params):           # element-level edits (shared elements would carry them into later results)
+                try:
+                    p.alg = -65535
+                    p.type = "vandalised"
+                except Exception:
+                    pass
+            if res.pub_key_cred_params and rng.random() < 0.5:
                 res.pub_key_cred_params.pop()
-            elif c == 2 and res.pub_key_cred_params:
-                res.pub_key_cred_params[0].alg = -65535
             else:
-                res.exclude_credentials.append("junk")
+                res.pub_key_cred_params.clear()
+            res.exclude_credentials.append("junk")
+            if getattr(res, "hints", None) is not None:
+                res.hints.append("junk")
+            if getattr(res, "authenticator_selection", None) is not None:
+                res.authenticator_selection.require_resident_key = "vandalised"
             res.rp.name = "vandalised"
+            res.user.name = "vandalised"
         elif hasattr(res, "allow_credentials"):
+            for d in list(res.allow_credentials or []):
+                try:
+                    d.id = b"vandalised"
+                    if d.transports:
+                        d.transports.append("junk")
+                except Exception:
+                    pass
             res.allow_credentials.append("junk")
             res.rp_id = "vandalised"
         elif hasattr(res, "credential_id"):
@@ -295,7 +309,7 @@ def run(tier, seed):
                 spec = next(s for s in pool if s[0] == hist[-1])      # immediate repetition of the previous call
             hist.append(spec[0])
             res = one(spec, pos, hist)
-            if res is not None and rng.random() < 0.5:
+            if res is not None:
                 vandalise(res, rng)
         if h == 0:
             chk.sample({"history": hist[:12]})
